@@ -644,6 +644,13 @@ def check_C17():
     tlc_must_pass(sem, "ExtractFS.tla emitter (three same-named entries)")
     rc5, rep5 = harness_run(vh, ["extract-replay", sem["out"], "@REPORT", car, "hamt=all"], timeout=3400)
     absorb(rep5, "same_name_triples")
+    # car extract --path: lookups by name meet pre-existing links and entries whose block is missing
+    pmodel = run_tlc("MCExtractFS", "ExtractFS_path_guardTRUE.cfg", timeout=1800)
+    tlc_must_pass(pmodel, "ExtractFS.tla invariant Contained with --path")
+    pem = run_tlc("MCExtractFS", "ExtractFS_path_emit.cfg", timeout=2400)
+    tlc_must_pass(pem, "ExtractFS.tla emitter (--path)")
+    rc6, rep6 = harness_run(vh, ["extract-replay", pem["out"], "@REPORT", car, "hamt=all"], timeout=3400)
+    absorb(rep6, "path_option")
     rep["counters"]["file_root_states"] = fmodel["distinct"]
     cov = merge_cov(model, em, rep, {
         "file_roots": "archives of <= 3 top-level items over {file root (extracted as <out>/unknown), file/symlink/directory named 'unknown' or 'a'} x output directory {empty, 'unknown' a symlink "
